@@ -70,6 +70,7 @@ type zzSrvEnv struct {
 	hangScript   func(c *streamableServerConn, ctx context.Context) // what happens while an exchange hangs
 	openHook     func()
 	hangs        int
+	inWrite      bool // a streamableServerConn.Write issued by the harness is in progress
 }
 
 var zzSrv8 *zzSrvEnv
@@ -140,11 +141,31 @@ func zzCall(id int64, method string) *jsonrpc.Request {
 // The logical stream of one request: the server writes n1 messages while the POST is attached, the exchange
 // drops, n2 more while nobody is attached, the client resumes from ANY previously seen event id, n3 more while
 // the resumed GET is attached (the last write of all is the response), then optionally resumes once more.
+// zzAtomicStore is the real MemoryEventStore plus one obligation: a message is stored while the mutex of the stream it
+// belongs to is held, i.e. storing it and giving it its place (event index) in the stream are one atomic step — the
+// premise under which the sequential exploration below speaks for concurrent writers and for a resume that lands
+// during a write.
+type zzAtomicStore struct {
+	EventStore
+	c *streamableServerConn
+}
+
+func (s *zzAtomicStore) Append(ctx context.Context, sess, streamID string, data []byte) error {
+	if s.c != nil {
+		// (the priming event is stored by servePOST before the stream's id has been told to anybody: no lock needed)
+		if st := s.c.streams[streamID]; st != nil && zzSrv8.inWrite {
+			vAssert(vHeld(&st.mu), "C08.store-and-index-assignment-atomic-per-stream")
+		}
+	}
+	return s.EventStore.Append(ctx, sess, streamID, data)
+}
+
 func zzC08Resume() {
 	env := &zzSrvEnv{streamNames: []string{"st1", "st2"}}
 	zzSrv8 = env
-	store := NewMemoryEventStore(nil)
+	store := &zzAtomicStore{EventStore: NewMemoryEventStore(nil)}
 	c := zzConnect(store, false, false)
+	store.c = c
 	version := protocolVersion20250618
 	priming := vBool("priming")
 	if priming {
@@ -166,7 +187,9 @@ func zzC08Resume() {
 		} else {
 			m = &jsonrpc.Request{Method: "notifications/progress", Params: vJSON(len(written))}
 		}
+		env.inWrite = true
 		err := c.Write(wctx, m)
+		env.inWrite = false
 		vAssert(err == nil, "C08.write-accepted")
 		written = append(written, m)
 	}
@@ -264,6 +287,11 @@ func zzC10Route() {
 		return s
 	}
 	sA := mk(idA, "stA", wA)
+	aGone := vBool("exchangeOfAHasDropped") // the client dropped A's POST while its handler is still running
+	if aGone {
+		sA.w = nil
+		sA.done = nil
+	}
 	bAnswered := vBool("bAlreadyAnswered")
 	var sB *stream
 	if !bAnswered {
@@ -304,6 +332,14 @@ func zzC10Route() {
 	_ = sA
 	_ = sB
 	vAssert(nA+nB+nS <= 1, "C10.delivered-to-at-most-one-exchange")
+	if aGone && rel == 0 && (kind == 0 || !jsonMode) {
+		// what belongs to A's exchange is not diverted to another exchange once A's exchange is gone (without an
+		// event store it is lost with the exchange; with one it would wait for a resume)
+		vAssert(nA == 0 && nB == 0 && nS == 0, "C10.message-of-a-dropped-exchange-not-diverted")
+		vReach("dropped-A")
+		vReach("end")
+		return
+	}
 	switch {
 	case kind == 2 && (stateless):
 		vAssert(err != nil && nA+nB+nS == 0, "C10.no-server-requests-on-stateless")
